@@ -4,6 +4,7 @@ package main
 // the real code (the failed clause is evaluated by Go itself on the real result).
 
 import (
+	"strconv"
 	"fmt"
 	"go/types"
 	"sort"
@@ -86,6 +87,8 @@ func (g *goGen) expr(e SpecExpr, sc *goScope) (string, types.Type) {
 	switch x := e.(type) {
 	case *SNum:
 		return x.Text, nil
+	case *SStr:
+		return strconv.Quote(x.Val), types.Typ[types.String]
 	case *SChar:
 		return fmt.Sprintf("%d", x.Val), nil
 	case *SIdent:
@@ -305,7 +308,7 @@ func (g *goGen) call(x *SCall, sc *goScope) (string, types.Type) {
 		a, _ := g.expr(x.Args[0], sc)
 		b, _ := g.expr(x.Args[1], sc)
 		return fmt.Sprintf("hvcFloor%s(int(%s), int(%s))", strings.Title(x.Fun), a, b), types.Typ[types.Int]
-	case "fresh", "sameArray":
+	case "fresh", "sameArray", "sameBacking":
 		return "true", types.Typ[types.Bool]
 	}
 	if t := g.fx.resolveType(x.Fun, g.pkg); t != nil && len(x.Args) == 1 {
